@@ -14,8 +14,13 @@ package parser
 //@   tags C10 C01 C04
 //@   ensures table: result == ite(tokRank(t) == 0, 0, tokRank(t) + 1)
 
+//@ ghost isProj(n Iface) Bool = isType(n, "*github.com/woodsbury/jmespath/internal/parser.FilterAndProjectNode") || isType(n, "*github.com/woodsbury/jmespath/internal/parser.FilterAndProjectCurrentNode") || isType(n, "*github.com/woodsbury/jmespath/internal/parser.FlattenAndProjectNode") || isType(n, "*github.com/woodsbury/jmespath/internal/parser.FlattenAndProjectCurrentNode") || isType(n, "*github.com/woodsbury/jmespath/internal/parser.ProjectArrayNode") || isType(n, "*github.com/woodsbury/jmespath/internal/parser.ProjectArrayCurrentNode")
+// selectors: the tokens that continue a chain of selections (C01: a projection's right-hand side extends over them)
+//@ ghost selectorTok(t Int) Bool = t == const("lexer.DotToken") || t == const("lexer.ObjectWildcardToken") || t == const("lexer.FilterToken") || t == const("lexer.OpenSqBraceToken") || t == const("lexer.ArrayWildcardToken")
+
 //@ func isProjectNode
 //@   tags C01 C17
+//@   ensures ghost: result == isProj(node)
 //@   ensures result == (isType(node, "*github.com/woodsbury/jmespath/internal/parser.FilterAndProjectNode") || isType(node, "*github.com/woodsbury/jmespath/internal/parser.FilterAndProjectCurrentNode") || isType(node, "*github.com/woodsbury/jmespath/internal/parser.FlattenAndProjectNode") || isType(node, "*github.com/woodsbury/jmespath/internal/parser.FlattenAndProjectCurrentNode") || isType(node, "*github.com/woodsbury/jmespath/internal/parser.ProjectArrayNode") || isType(node, "*github.com/woodsbury/jmespath/internal/parser.ProjectArrayCurrentNode"))
 
 // ---------------------------------------------------------------------------
@@ -97,6 +102,7 @@ package parser
 //@   ensures pi: result1 == nil ==> p.curr.Type == tokT(ppos) && p.next.Type == tokT(ppos + 1) && tokOK(p.curr.Type, p.curr.Value) && tokOK(p.next.Type, p.next.Value) && 0 <= p.lex.position && p.lex.position <= len(p.lex.expression)
 //@   ensures[C09] progress: result1 == nil ==> ppos > old(ppos) && result0 != nil
 //@   at expression#* assert[C10] prefix: arg1 == 1 || arg1 >= precOf(const("lexer.MultiplyToken"))
+//@   ensures[C17 C01] paren.ends: old(p.curr.Type) == const("lexer.OpenParenToken") && result1 == nil ==> !isProj(result0)
 
 //@ func parser.projection
 //@   tags C04 C09 C01
@@ -106,6 +112,7 @@ package parser
 //@   ensures pi: result1 == nil ==> p.curr.Type == tokT(ppos) && p.next.Type == tokT(ppos + 1) && tokOK(p.curr.Type, p.curr.Value) && tokOK(p.next.Type, p.next.Value) && 0 <= p.lex.position && p.lex.position <= len(p.lex.expression)
 //@   ensures[C09] progress: result1 == nil && result0 != nil ==> ppos > old(ppos)
 //@   ensures none: result1 == nil && result0 == nil ==> ppos == old(ppos) && toks() == old(toks())
+//@   ensures[C01 C17] extends: result1 == nil ==> !selectorTok(tokT(ppos))
 //@   loop 1
 //@     invariant p.curr.Type == tokT(ppos) && p.next.Type == tokT(ppos + 1) && tokOK(p.curr.Type, p.curr.Value) && tokOK(p.next.Type, p.next.Value) && 0 <= p.lex.position && p.lex.position <= len(p.lex.expression) && ppos > old(ppos) && newPrec == precOf(p.curr.Type) && node != nil
 //@     invariant[C04 C01 C17] linear: pendingOnly(node)
